@@ -29,7 +29,7 @@ func vBoundSackCounts(raw []byte) {
 
 func vCodecLens() []int {
 	if vtier() == 0 {
-		return []int{16, 20, 24}
+		return []int{16, 18, 20, 24} // 18: a last chunk whose padding is cut short
 	}
 	return []int{12, 16, 20, 24, 28} // 32 (a 20-byte ABORT / ERROR / RE-CONFIG value) did not finish in 40 min
 }
@@ -49,6 +49,14 @@ func vh_C12_L3_reencode_stable() {
 		vcover("rejected")
 		return
 	}
+	// an accepted packet is made of whole chunks, padding included (each chunk's own length
+	// plus its padding, and nothing cut short at the end)
+	total := packetHeaderSize
+	for _, c := range p.chunks {
+		vl := c.valueLength()
+		total += chunkHeaderSize + vl + getPadding(vl)
+	}
+	vassert(total == n, "accepted packet: the padded chunk lengths add up to the buffer length")
 	raw2, err := p.marshal(true)
 	if err != nil {
 		// The only decoder-accepted chunk the encoder deliberately refuses is a
@@ -294,8 +302,11 @@ func vh_C12_L1_roundtrip_control() {
 		vassert(ok, "SHUTDOWN-ACK round-trips")
 		vcover("shutdown-ack")
 	case 1:
-		_, ok := vRoundTrip(&chunkShutdownComplete{}).(*chunkShutdownComplete)
-		vassert(ok, "SHUTDOWN-COMPLETE round-trips")
+		in := &chunkShutdownComplete{}
+		tbit := nondetU8() & 1 // the T bit: the sender had no association and reflected the tag
+		in.flags = tbit
+		out, ok := vRoundTrip(in).(*chunkShutdownComplete)
+		vassert(ok && out.flags == tbit, "SHUTDOWN-COMPLETE round-trips, T bit included")
 		vcover("shutdown-complete")
 	case 2:
 		_, ok := vRoundTrip(&chunkCookieAck{}).(*chunkCookieAck)
